@@ -26,6 +26,8 @@ def main():
             readme = open(os.path.join(d, "demo", f)).read()
     # every "`file` to `path`" pair
     copies = re.findall(r"`([^`\s]+\.go)`\s+to\s+`([^`\s]+)`", readme)
+    if not copies:  # "a.go -> path/b.go" form
+        copies = re.findall(r"(\S+\.go)\s*->\s*(\S+\.go)", readme)
     if not copies:  # same sentence without backticks
         copies = re.findall(r"[Cc]opy\s+(\S+\.go)\s+to\s+(\S+\.go)", readme)
     if not copies:  # "copy X to dir/" form
